@@ -1,6 +1,6 @@
 SPECIFICATION Spec
 CONSTANTS
   StrictA = FALSE
-INVARIANTS NoLeak NoLeakInLedger
+INVARIANTS NoLeak NoLeakInLedger ColdResolves
 POSTCONDITION TraceAccepted
 CHECK_DEADLOCK FALSE
